@@ -452,6 +452,28 @@ pub fn c14_cases(c: &Corpus, quick: bool) -> Vec<Circuit> {
             }
         }
     }
+    // thorough: decode followed by re-encode, every pair of substitutions at the two sites
+    if !quick {
+        for s in encs.iter().take(3).chain(encs.iter().skip(17).take(3)) {
+            for s0 in &subs {
+                for s1 in &subs {
+                    out.push(mk(
+                        vec![
+                            R1Op::AllocFqVar {
+                                mode: Mode::Witness,
+                                v: s.clone(),
+                            },
+                            R1Op::Decompress(0),
+                            R1Op::AddConst(0, ESrc::Generator),
+                            R1Op::Compress(LAST),
+                        ],
+                        vec![s0.clone(), s1.clone()],
+                        vec![],
+                    ));
+                }
+            }
+        }
+    }
     // witness-tampering prover: honest hints, then every witnessed bit decomposition rewritten to v + q
     {
         use num_bigint::BigUint;
@@ -683,7 +705,7 @@ pub fn run_check(prop: &str, opts: &Opts) -> i32 {
                 let c = if prop == "C14" {
                     gen::adversarial(&mut rng, cr)
                 } else {
-                    gen::history(&mut rng, cr)
+                    gen::history(&mut rng, cr, !quick)
                 };
                 report_hang(prop, opts, format!("seeded#{}", start + i), &c)
             };
@@ -695,7 +717,7 @@ pub fn run_check(prop: &str, opts: &Opts) -> i32 {
                     let c = if prop == "C14" {
                         gen::adversarial(&mut rng, cr)
                     } else {
-                        gen::history(&mut rng, cr)
+                        gen::history(&mut rng, cr, !quick)
                     };
                     let o = simcore::par::isolated(|| judge_circuit(&c, judge, false));
                     (c, o)
